@@ -1,21 +1,18 @@
 #!/usr/bin/env python3
-"""update_floors.py <facts.json>: set every spec's obligation floor to the count instantiated on the given (reference) tree.
-Refuses when any obligation is violated / unrecognised: floors are only ever taken from a clean reference tree."""
-import sys, re, time, os
+"""update_floors.py <facts.json>: record, per property, the set of rule ids that produce at least one obligation on the given
+(reference) tree -> rules/floors.json.  Refuses when any obligation is violated / unrecognised: the reference is a clean tree."""
+import sys, time, os, json
 sys.path.insert(0, '/verif')
 os.environ['VERIF_NO_EVIDENCE'] = '1'
 from rules import runner
 facts = sys.argv[1]
+out = {}
 for i in range(1, 19):
     pid = 'C%02d' % i
     ctx, viol, known, lines, ev = runner.run_property(pid, facts, 'sweep', time.time(), quiet=True)
-    real = [o for o in viol if 'floor' not in o.key]
+    real = [o for o in viol if '.floor' not in o.key]
     if real:
         sys.exit('%s: %d violations on the reference tree, floors not updated: %s' % (pid, len(real), real[0].key))
-    n = len([o for o in ctx.obs if 'floor' not in o.key])
-    f = '/verif/rules/spec/%s.py' % pid
-    s = open(f).read()
-    s2 = re.sub(r"FLOORS = \{'obligations': \d+\}", "FLOORS = {'obligations': %d}" % n, s, 1)
-    if s2 != s:
-        open(f, 'w').write(s2)
-        print(pid, 'floor ->', n)
+    out[pid] = sorted(set(o.oid for o in ctx.obs if not o.oid.endswith('.floor')))
+    print(pid, len(out[pid]), 'rules,', len(ctx.obs), 'obligations')
+json.dump(out, open('/verif/rules/floors.json', 'w'), indent=1)
